@@ -3,7 +3,7 @@
     (the encoding of tx/tx_c03.py, shared by translator and check).
     Cases:
       val | type id or - (root: by global element) | tree
-          -> verdict | errors (kind elem what pos ...)
+          -> verdict | errors (kind elem what pos ...)      (no exemptions: plain validity)
       ops | type id | tree | ops
           -> order_valid before | all admissible | order_valid after | resulting tree
     where ops is a flat list of  pathlen, path..., opcode, operands:
@@ -141,8 +141,8 @@ Definition run_c03 (args : list str) : str :=
         match parse_node (S (length tree)) tree with
         | Some (n, []) =>
             match parse_N tys with
-            | Some ty => fields [show_bool (valid_node schema0 exempt ty n); show_errs (errs_node schema0 exempt ty n)]
-            | None => fields [show_bool (valid_root schema0 exempt n); show_errs (errs_root schema0 exempt n)]
+            | Some ty => fields [show_bool (valid_node schema0 [] ty n); show_errs (errs_node schema0 [] ty n)]
+            | None => fields [show_bool (valid_root schema0 [] n); show_errs (errs_root schema0 [] n)]
             end
         | _ => w_badcase
         end
